@@ -64,25 +64,60 @@ Proof.
     subst code. destruct (_ && _); [discriminate|]. recurse IH H 11%N.
 Qed.
 
-(* the whole walk of an admitted packet, from a request about which nothing is known: the three facts
-   are exactly "an option with that code is in the OPT" — in particular every form of the
-   client-subnet option the parser lets through (family 0 opt-out, IPv4, IPv6) sets hasECS *)
-Lemma wire_walk_marks raw off r :
-  wire_opt_walk raw off = (GoNext, r) ->
+(* a return from inside the walk is always a refusal *)
+Lemma loop_ret_false fuel : forall lf r off raw u x v fl rd end_ a r1 st,
+  go_Request_parseWireOPT_loop1 fuel lf r off raw u x v fl rd end_ = (GoRet (a, r1), st) -> a = false.
+Proof.
+  induction lf as [|lf IH]; intros r off raw u x v fl rd end_ a r1 st H.
+  - cbn in H. discriminate.
+  - cbn [go_Request_parseWireOPT_loop1] in H. cbv zeta in H.
+    repeat match type of H with
+           | context [if ?c then _ else _] => destruct c
+           end;
+    first [ discriminate | (inversion H; reflexivity) | (eapply IH; exact H) ].
+Qed.
+
+(* the Request the caller of parseWireOPT sees, for ANY request it is called on and any fuel: when
+   the packet is admitted, the three facts are the ones it had before, or-ed with "an option with
+   that code lies in the OPT" — in particular every form of the client-subnet option the parser
+   lets through (family 0 opt-out, IPv4, IPv6) sets hasECS; and the walk covered the OPT's RDATA
+   up to the end of the packet *)
+Lemma parse_marks fuel r off r' :
+  go_Request_parseWireOPT fuel r off = Some (true, r') ->
+  exists cs, opt_codes_at fuel (T_Request_raw r) (off + 11) (go_len (T_Request_raw r)) = Some cs /\
+    T_Request_hasECS r' = T_Request_hasECS r || has_code 8%N cs /\
+    T_Request_hasNSID r' = T_Request_hasNSID r || has_code 3%N cs /\
+    T_Request_hasKeepalive r' = T_Request_hasKeepalive r || has_code 11%N cs.
+Proof.
+  unfold go_Request_parseWireOPT. cbv zeta.
+  destruct (_ || _); [intros H; inversion H|].
+  destruct (negb (_ =? 41)%N); [intros H; inversion H|].
+  destruct (Z.eqb_spec (off + 11 + Z.of_N (go_be16 (go_slice (T_Request_raw r) (off + 9) (off + 11)))) (go_len (T_Request_raw r))) as [E|E];
+    cbn [negb]; [|intros H; inversion H].
+  destruct (negb (_ =? 0)%N); [intros H; inversion H|].
+  rewrite E.
+  destruct (go_Request_parseWireOPT_loop1 _ _ _ _ _ _ _ _ _ _ _) as [ctl [[[[[[[[r0 o0] w0] u0] x0] v0] f0] d0] e0]] eqn:EL.
+  destruct ctl as [|[a r1]|].
+  - intros H. apply loop_marks in EL. destruct EL as [cs [Hc [HA [HB HC]]]].
+    injection H as _ Hr. subst r0. exists cs.
+    cbn [T_Request_hasECS T_Request_hasNSID T_Request_hasKeepalive] in HA, HB, HC. auto.
+  - intros H. injection H as Ha _. subst a. apply loop_ret_false in EL. discriminate.
+  - discriminate.
+Qed.
+
+Lemma wire_parse_marks raw off r :
+  wire_opt_parse raw off = Some (true, r) ->
   exists cs, opt_codes_at (S (length raw)) raw (off + 11) (go_len raw) = Some cs /\
     T_Request_hasECS r = has_code 8%N cs /\
     T_Request_hasNSID r = has_code 3%N cs /\
     T_Request_hasKeepalive r = has_code 11%N cs.
-Proof.
-  unfold wire_opt_walk.
-  destruct (go_Request_parseWireOPT_loop1 _ _ _ _ _ _ _ _ _ _ _) as [ctl [[[[[[[[r0 o0] w0] u0] x0] v0] f0] d0] e0]] eqn:EL.
-  intros H. inversion H; subst ctl r0. apply loop_marks in EL. exact EL.
-Qed.
+Proof. unfold wire_opt_parse. intros H. apply parse_marks in H. exact H. Qed.
 
-Example wire_walk_example :
+Example wire_parse_example :
   (* OPT with COOKIE(8 octets), then the opt-out subnet option (family 0, /0), then NSID *)
   let raw := repeat 0%N 12 ++ [0; 0;41; 4;208; 0;0;0;0; 0;24;  0;10;0;8;1;2;3;4;5;6;7;8;  0;8;0;4;0;0;0;0;  0;3;0;0]%N in
-  wire_opt_admitted raw 12 = Some true /\
-  (let '(ctl, r) := wire_opt_walk raw 12 in
-   (ctl, T_Request_hasECS r, T_Request_hasNSID r, T_Request_hasKeepalive r)) = (GoNext, true, true, false).
-Proof. vm_compute. split; reflexivity. Qed.
+  match wire_opt_parse raw 12 with
+  | Some (a, r) => (a, T_Request_hasECS r, T_Request_hasNSID r, T_Request_hasKeepalive r, T_Request_hasOPT r) = (true, true, true, false, true)
+  | None => False
+  end.
+Proof. vm_compute. reflexivity. Qed.
